@@ -274,7 +274,8 @@ class Logistic(BaseDatafit):
 
     def raw_hessian(self, y, Xw):
         """Compute Hessian of datafit w.r.t ``Xw``."""
-        exp_minus_yXw = np.exp(-y * Xw)
+        # sigmoid(z) * sigmoid(-z) is even in z: use -|z| to avoid inf / inf
+        exp_minus_yXw = np.exp(-np.abs(y * Xw))
         return exp_minus_yXw / (1 + exp_minus_yXw) ** 2 / len(y)
 
     def get_lipschitz(self, X, y):
@@ -298,7 +299,9 @@ class Logistic(BaseDatafit):
             X_data, X_indptr, X_indices, len(y)) ** 2 / (4 * len(y))
 
     def value(self, y, w, Xw):
-        return np.log(1. + np.exp(- y * Xw)).sum() / len(y)
+        # log(1 + exp(-z)) = max(-z, 0) + log(1 + exp(-|z|)), finite for every z
+        z = y * Xw
+        return (np.maximum(-z, 0.) + np.log(1. + np.exp(-np.abs(z)))).sum() / len(y)
 
     def gradient_scalar(self, X, y, w, Xw, j):
         return (- X[:, j] @ (y * sigmoid(- y * Xw))) / len(y)
